@@ -38,7 +38,7 @@ def thorough_extras(ctx, prop: str) -> None:
     """Thorough tier: validate the checker itself for this property (never changes the verdict).
 
     * every mutant of glint/mutants for this property must be reported (SELFTEST-SURVIVOR otherwise);
-    * every automatic silent twin (reformat, rename-locals) of every consulted file must stay green.
+    * every automatic silent twin (reformat, rename-locals, flip-if, flip-compare, extract-temp) of every consulted file must stay green.
     Both run on scratch copies outside /repo and /verif.
     """
     from concurrent.futures import ProcessPoolExecutor
@@ -50,7 +50,14 @@ def thorough_extras(ctx, prop: str) -> None:
     jobs = []
     consulted = sorted(ctx.repo.consulted)
     for rel in consulted:
-        for kind in ("reformat", "rename-locals"):
+        path = os.path.join(ctx.repo.root, rel)
+        if not os.path.exists(path):
+            continue
+        src = open(path, encoding="utf-8").read()
+        base = twins.transform(src, "reformat")
+        for kind in twins.KINDS:
+            if kind != "reformat" and twins.transform(src, kind) == base:
+                continue  # this rewrite has no site in the file
             jobs.append((rel, kind, {prop}))
     with ProcessPoolExecutor(max_workers=os.cpu_count() or 4) as ex:
         mres = list(ex.map(selftest.run_one, muts))
